@@ -243,5 +243,6 @@ def run_case(case, ctx):
     ctx.seen("classes", case["cls"])
     offd = np.abs(rl - np.diag(np.diag(rl))).max() / max(tr, 1e-300)
     ctx.seen("offdiag_over_trace_decade", int(np.floor(np.log10(offd + 1e-30))))
+    gen.scribble_spaces(st, nv)  # tensors handed out are the caller's: nothing later may depend on them
     ctx.sample({"case": case, "am": gen.small_params(am), "ph": gen.small_params(ph), "trace": tr,
                 "min_eig_over_trace": float(ev.min() / tr), "purity": float(np.real(np.trace(rl @ rl)) / tr ** 2)})
